@@ -191,6 +191,7 @@ stringify(const string &source) {
     S_quoted = 0x06,
   };
   int state = 0;
+  bool pending_space = false;
 
   string::const_iterator it;
   for (it = source.begin(); it != source.end(); ++it) {
@@ -199,6 +200,18 @@ stringify(const string &source) {
     if (c == no_expand_mark && (state & S_quoted) == 0) {
       // Not part of the spelling.
       continue;
+    }
+
+    if (isspace((unsigned char)c) && (state & S_quoted) == 0) {
+      // White space before the first and after the last token is deleted,
+      // and each occurrence of white space between tokens becomes a single
+      // space character.
+      pending_space = (result.size() > 1);
+      continue;
+    }
+    if (pending_space) {
+      result += ' ';
+      pending_space = false;
     }
 
     if ((state & S_escaped) == 0) {
